@@ -2,6 +2,7 @@ SPECIFICATION Spec
 CONSTANTS
   Kinds = {"value", "word", "aview", "sview", "sptr", "aptr", "ptr", "pptr", "sp", "wp"}
   Kinds2 = {"value", "word", "aview", "sview", "sptr", "aptr", "ptr", "pptr", "sp", "wp"}
+  MaxForm2 = 6
   Fuel = 400
 INVARIANTS Legality Monitors NonInterference EmitCase
 CHECK_DEADLOCK FALSE
